@@ -317,6 +317,9 @@ def setpath(root, parts, val):
         if not hasattr(o, p):
             setattr(o, p, types.SimpleNamespace())
         o = getattr(o, p)
+    if parts[-1].endswith('()'):     # opaque call: the attribute is a callable returning the input value
+        setattr(o, parts[-1][:-2], (lambda _v: (lambda *a_, **k_: _v))(val))
+        return
     setattr(o, parts[-1], val)
 def flat(x):
     if isinstance(x, tuple):
@@ -325,6 +328,8 @@ def flat(x):
         return r
     return [x]
 def enc(x):
+    if isinstance(x, np.ndarray) and np.iscomplexobj(x):   # complex arrays: re, im interleaved (Num/Cx.v cx_flat)
+        return [float(v).hex() for y in np.ravel(x) for v in (y.real, y.imag)]
     if isinstance(x, (list,)) or (isinstance(x, np.ndarray) and x.size != 1):
         return [float(np.real(y)).hex() for y in np.ravel(x)]
     if isinstance(x, (bool, np.bool_)):
